@@ -67,15 +67,15 @@ type c17State struct {
 	minSince   int64 // lowest logical size since that Sync
 	syncFailed bool  // an fsync fault fired since the last successful sync
 
-	gen     int
-	ops     []string
+	gen       int
+	ops       []string
 	opStart   int // disk op index when the current API op started
 	prevStart int
 	curDur    c17Dur // durability bookkeeping when the current / previous op started
 	prevDur   c17Dur
-	incarn  int
-	crashed bool
-	keepHW  int64
+	incarn    int
+	crashed   bool
+	keepHW    int64
 
 	everRewound bool
 	// dirtyAtOpen: the previous incarnation was closed with un-synced bytes;
